@@ -190,6 +190,7 @@ def c02(ctx):
     d2, f2, n2 = run_table(ctx, "structured")
     shutil.rmtree(d2, ignore_errors=True)
     run_table(ctx, "types")
+    run_table(ctx, "first", per=400)       # every accessor as the first query of a fresh process
     # growth beyond the listed properties: derived Ord / Eq / Hash, constants, TimeCodeType (never a VIOLATION)
     dm, fm, nm = run_table(ctx, "misc")
     growth = sorted({c for p_, c, r in fm if p_ == "GROWTH"})
@@ -206,6 +207,8 @@ def c03(ctx):
     shortmsg_theorems(ctx)
     d, f, n = run_table(ctx, "short")
     table_canary(ctx, d, "short", lambda rows, rng: _set_flag(rows, rng))
+    shutil.rmtree(d, ignore_errors=True)
+    run_table(ctx, "first", per=400)       # every accessor as the first query of a fresh process
     finish_pure(ctx, "rows: per triple, the accessor vectors of RawShortMessage, StructuredShortMessage, a byte-getter-"
                      "only implementor and one overriding to_bytes, compared by == inside the harness (flags) and against "
                      "Obs / Obs o Canon by TLC; conversions to_other / from_other / to_structured between all of them.  "
@@ -296,7 +299,7 @@ def c05(ctx):
 def c06(ctx):
     shortmsg_theorems(ctx)
     d, f, n = run_table(ctx, "factory", per=16384)
-    table_canary(ctx, d, "factory", lambda rows, rng: _corrupt_at(rows, rng, lambda r: len(r) == 35 and r[6] == 0, 8 + 14))
+    table_canary(ctx, d, "factory", lambda rows, rng: _corrupt_at(rows, rng, lambda r: len(r) >= 35 and r[0] <= 49 and r[6] == 0, 8 + 14))
     finish_pure(ctx, "rows: every argument tuple of the 19 named constructors (thorough: complete - 4 x 2^18 three-argument "
                      "tuples, 16 x 16384 pitch bends, all positions / frames / songs; quick: boundary product + seeded random) "
                      "for RawShortMessage and StructuredShortMessage, the three generic constructors x all 23 types (panic "
